@@ -130,15 +130,16 @@ class CHECK(core.Check):
     GENERATED = True
     ENGINE = "imports"
     N_QUICK = 8
-    N_THOROUGH = 120
+    N_THOROUGH = 60
     N_SEARCH = 8
     RULE = ("a case is an ordered list of ioflo module names imported into ONE fresh interpreter. Exhaustive: every "
             "module alone (quick and thorough), every ordered pair of modules of the same package (thorough; of the pairs "
-            "whose two modules are both loaded by `import ioflo` itself only every 7th). Generated: "
+            "whose two modules are both loaded by `import ioflo` itself only every 7th, of the others every 3rd: "
+            "the non-core same-package pairs are proved in the kernel table). Generated: "
             "random orders of random subsets (2..all modules, with repeats and with the top-level package at a random "
             "position). Host configurations (correspondence/oracle only): the package and, in thorough, every module "
             "alone, in quick 3 modules rotating with the seed, under each of: std streams closed (fd 0, 1, 2, all), -S, "
-            "-E -s, no flags, -O, -OO, -B, cwd=/proc, C locale without UTF-8 mode. Thorough tier also: about 500 random ordered pairs and 150 random triples of modules that "
+            "-E -s, no flags, -O, -OO, -B, cwd=/proc, C locale without UTF-8 mode. Thorough tier also: about 300 random ordered pairs and 100 random triples of modules that "
             "`import ioflo` does not load, across packages (the region where order independence is not proved); the synthetic tree harness/corpus/C01-synth (42 scenario packages exercising "
             "the import protocol: cycles, partial modules, star/__all__, fromlist, namespace packages, try/except, "
             "stdlib sub-module attributes ...; its modules alone, all ordered pairs and some permutations inside a "
@@ -160,8 +161,9 @@ class CHECK(core.Check):
                "importable; C01_pair_partial / C01_any_order_pair_partial (kernel table over ordered pairs: for every module "
                "a, every other module m of its package and every module that statically imports a): `import a; import m` "
                "succeeds, and so does every sequence over {a, m} and the 55 core modules when the table relates a and m in "
-               "both directions; C01_whole_tree_partial: all modules in one interpreter, in name order and in reverse "
-               "order; C01_finished_namespaces_stable (generic importAll_frame): no sequence of imports changes "
+               "both directions; C01_whole_tree_partial: all modules in one interpreter, in four total orders (name order, reverse, "
+               "by sha1 of the name, by reversed name); C01_sweeps_same_state_partial: these four orders end in the SAME "
+               "interpreter state (same modules loaded, same names bound to the same modules in every module); C01_finished_namespaces_stable (generic importAll_frame): no sequence of imports changes "
                "the namespace of a module that had finished initialising, except for binding loaded sub-modules on their "
                "package. NOT proved "
                "(only exercised by the ordered pairs and random orders of the correspondence): that the first import of a "
@@ -439,7 +441,7 @@ class CHECK(core.Check):
                     for b in ms:
                         if a != b:
                             k += 1
-                            if a in core and b in core and k % 7:
+                            if (a in core and b in core and k % 7) or (k % 3 and not (a in core and b in core)):
                                 continue
                             cases.append({"order": [a, b]})
         return self.prefetch(cases)
@@ -491,11 +493,11 @@ class CHECK(core.Check):
             core_out = self.impl({"order": ["ioflo"]}) if "ioflo" in dom else ["-"]
             core = {x.split(":")[0] for x in core_out[-1].split()}
             non = [m for m in dom if m not in core]
-            for _ in range(500 if len(non) > 2 else 0):
+            for _ in range(300 if len(non) > 2 else 0):
                 a, b = rng.sample(non, 2)
                 if a.rpartition(".")[0] != b.rpartition(".")[0]:
                     cases.append({"order": [a, b]})
-            for _ in range(150 if len(non) > 3 else 0):
+            for _ in range(100 if len(non) > 3 else 0):
                 cases.append({"order": rng.sample(non, 3)})
             cases += self.synth_cases(rng)
         return self.prefetch(cases)
